@@ -111,6 +111,7 @@ type Knobs struct {
 	NoHeadDigest   bool // HEAD/GET of a manifest without Docker-Content-Digest
 	Strict         bool // reject manifests whose content references are missing
 	BlobRedirect   string // non-empty: blob GETs are answered with 307 to this host
+	BlobRedirectScheme string // scheme of the redirect (default https)
 	ManifestPutNoLocation bool
 	DeleteBlob     bool
 	NoRangeOnJSON  bool // manifests and listings ignore Range (as most real registries do)
@@ -229,6 +230,9 @@ func (g *Reg) serve(req *simnet.Request) *simnet.Response {
 		r.Header.Set("Content-Type", "application/json")
 		r.Body = b
 		return r
+	}
+	if strings.HasPrefix(p, "/cdn/") {
+		return (&CDN{Origin: g}).Serve(req)
 	}
 	m := pathRe.FindStringSubmatch(p)
 	if m == nil {
@@ -388,7 +392,11 @@ func (g *Reg) blobs(req *simnet.Request, repo, dig string) *simnet.Response {
 		}
 		if g.K.BlobRedirect != "" && req.Method == "GET" {
 			r := resp(307, "")
-			r.Header.Set("Location", "https://"+g.K.BlobRedirect+"/cdn/"+repo+"/"+dig)
+			sch := g.K.BlobRedirectScheme
+			if sch == "" {
+				sch = "https"
+			}
+			r.Header.Set("Location", sch+"://"+g.K.BlobRedirect+"/cdn/"+repo+"/"+dig)
 			return r
 		}
 		return ServeBytes(req, b, dig)
